@@ -28,6 +28,8 @@ def setup_repo():
     got = os.path.realpath(os.path.dirname(os.path.dirname(mygrad.__file__)))
     assert got == os.path.realpath(src), f"mygrad imported from {got}, expected {src}"
     gc.disable()
+    gc.collect()
+    gc.freeze()  # everything imported so far is permanent: later gc.collect() calls only scan new objects
     return mygrad
 
 
@@ -92,6 +94,7 @@ class Acc:
         self.nontrivial = set()  # digests of non-trivial distinct cases
         self.outcomes = {}  # outcome label -> count
         self.violations = []  # list of dict (capped)
+        self._groups = {}
         self.samples = []
         self.notes = set()
         self.capped = False
@@ -102,9 +105,21 @@ class Acc:
     def outcome(self, k, v=1):
         self.outcomes[k] = self.outcomes.get(k, 0) + v
 
-    def violation(self, v, cap=6):
-        if len(self.violations) < cap:
+    def violation(self, v, per_group=3, max_groups=40):
+        """keep up to `per_group` raw violations per (failure kind, failing statement shape)"""
+        f = v.get("failure") or ()
+        try:
+            st = f[1] if len(f) > 1 else ()
+            key = (f[2] if len(f) > 2 else None, st[0] if st else None,
+                   tuple(x for x in st[1:] if isinstance(x, str))[-2:] if st else ())
+        except Exception:
+            key = None
+        g = self._groups.setdefault(key, 0) if (key in self._groups or len(self._groups) < max_groups) else None
+        if g is not None and g < per_group:
+            self._groups[key] = g + 1
             self.violations.append(v)
+        else:
+            self.inc("violations_dropped_by_cap")
         self.inc("violations_raw")
 
     def merge(self, o):
@@ -124,9 +139,15 @@ class Acc:
 _TASK_FN = None
 
 
+_POST = None  # set by the driver: finalises (minimises, matches known findings) a task's violations in the worker
+
+
 def _run_one(task):
     try:
-        return _TASK_FN(task)
+        acc = _TASK_FN(task)
+        if _POST is not None and acc.violations:
+            acc.violations = [_POST(v) for v in acc.violations]
+        return acc
     except BaseException:  # a harness error is never a violation: surface it loudly
         a = Acc()
         a.n["harness_errors"] = 1
